@@ -61,7 +61,9 @@ OBJ_EO = ["accuracy_score", "balanced_accuracy_score"]
 GROUP_NAMES = [["a", "b", "c"], ["z", "m", "k"], [3, 1, 2], [0, 1, 2], ["1", "0", "10"]]
 N_STAT = 400
 TAIL = 2e-9          # two-sided exact binomial tail ~ 6 sigma
-TOL = 1e-12
+TOL = 1e-12          # model value vs implementation value (same float inputs)
+RTOL = 1e-7          # range / normalisation slack: LP weights sum to 1 only up to solver tolerance (numpy's own
+                     # check in choice is sqrt(eps) ~ 1.5e-8)
 U_TOP = 1.0 - 2.0 ** -53
 TINY = 2.0 ** -60
 
@@ -396,6 +398,9 @@ def _impl_egreg(case):
         return {"fit_error": f"{type(e).__name__}: {e}"[:300]}
     res = _eg_common(est, Xq)
     n = len(Xq)
+    pt = est._pmf_predict(Xq)           # regression: the table of predictor outputs, one column per predictor id
+    res["pred_columns"] = [int(c) for c in pt.columns]
+    res["pred_table"] = [[float(x) for x in row] for row in np.asarray(pt.values, dtype=float)]
     wid = dict(zip(res["w_index"], res["w_values"]))
     T = res["n_hs"]
     # the distribution of row i according to weights_ BY ID (python floats; the exact one is the model's)
@@ -597,7 +602,7 @@ def _repro_checks(v, ep, out):
 
 def _dist_checks(v, ep, pmf):
     for i, (a, b) in enumerate(pmf):
-        if not (-TOL <= a <= 1 + TOL and -TOL <= b <= 1 + TOL and abs(a + b - 1) <= TOL) or a != a or b != b:
+        if not (-RTOL <= a <= 1 + RTOL and -RTOL <= b <= 1 + RTOL and abs(a + b - 1) <= TOL) or a != a or b != b:
             v.append((f"{PID}/{ep}/_pmf_predict/not-a-distribution", f"row {i}: ({a!r}, {b!r})",
                       "both entries in [0,1] and summing to 1", "property"))
             break
@@ -652,7 +657,7 @@ def compare(case, out, model):
     # ---- EG ----
     w = out["w_values"]
     idx = out["w_index"]
-    if sorted(idx) != list(range(out["n_hs"])) or any(x < -TOL for x in w) or abs(sum(w) - 1) > 1e-9:
+    if sorted(idx) != list(range(out["n_hs"])) or any(x < -TOL for x in w) or abs(sum(w) - 1) > RTOL:
         v.append((f"{PID}/{ep}/fit/weights-not-a-distribution-over-predictor-ids",
                   f"index {idx} values {w} for {out['n_hs']} predictors",
                   "weights_ >= 0, summing to 1, indexed by every predictor id once", "property"))
@@ -707,6 +712,12 @@ def compare(case, out, model):
                       f"row {i}: same distribution, different (value, weight) table: {a}, {p}",
                       "(a, p) = (column t or 0 at zero weight, weights_[t]) for t = 0..T-1", "correspondence"))
             break
+    if out.get("pred_table") is not None and model is not None:
+        want_t = [[float(x) for x, _ in row] for row in model["pairs"]]
+        if out["pred_columns"] != list(range(out["n_hs"])) or out["pred_table"] != want_t:
+            v.append((f"{PID}/{ep}/_pmf_predict/table-differs-from-model",
+                      f"columns {out['pred_columns']}; first rows {out['pred_table'][:2]} vs model {want_t[:2]}",
+                      "column t = h_t(X), zeros where weights_[t] == 0", "correspondence"))
     names = sorted(out["ugrids"])
     for gi, name in enumerate(names):
         got = out["values"][name]
@@ -752,6 +763,11 @@ def tags(case, out, model):
             t.append("infinite-threshold")
         if any(r["p_ignore"] not in (None, 0.0) for r in out["rules"]):
             t.append("p_ignore>0")
+        for r in out["rules"]:
+            pig, c = (r["p_ignore"] or 0.0), (r["pred_const"] or 0.0)
+            if not (r["p0"] >= 0 and r["p1"] >= 0 and abs(r["p0"] + r["p1"] - 1) <= 1e-9 and 0 <= pig <= 1
+                    and 0 <= c <= 1):
+                t.append("rule-premise-violated")
         thr = {(r["group"], r[o][1]) for r in out["rules"] for o in ("op0", "op1")}
         if any((g, s) in thr for g, s in out["qrows"]):
             t.append("score-equals-threshold")
@@ -787,6 +803,8 @@ def canon(case):
 def shrink(case):
     """drop one training row / one pre-generated query row at a time (a group that loses a label makes the fit
     raise, which is recorded as fit-error, i.e. not a reproduction)"""
+    if case.get("stat"):        # first: without the (expensive) frequency test
+        yield dict(case, stat=False)
     key = "score" if case["kind"] == "to" else "X"
     n = len(case["y"])
     if n > 4:
@@ -803,5 +821,3 @@ def shrink(case):
     if len(case["query"]) > 1:
         for i in range(len(case["query"])):
             yield dict(case, query=case["query"][:i] + case["query"][i + 1:])
-    if case.get("stat"):
-        yield dict(case, stat=False)
